@@ -319,3 +319,10 @@ def c03_forms(tier="quick", seed=0):
         out.append(ob(key, bad is None, "B", f"{form[:60]}: {n} receivers" if bad is None else f"{form[:50]} on {bad[0]}: {bad[1]}",
                       witness=(bad[2] if bad else None), confirmed=True if bad else None, domain=n, key=key))
     return out
+
+
+@groups.group(id="C03.struct.process-state", prop="C03", kind="K3", functions=["microjs (module-level state)"])
+def c03_process_state(tier="quick", seed=0):
+    """no module-level object of the engine is reachable from scripts of several contexts (the analysis of C12)"""
+    from contracts.C12_context import process_state
+    return process_state("C03", tier, seed)
